@@ -494,7 +494,7 @@ struct Cfg {
     typedef Elem Dat;
     typedef typename CT::template of<Key> TCmp;
     template <class T>
-    using Alloc = typename std::conditional<Counting, CountingAllocator<T>, std::allocator<T> >::type;
+    using Alloc = typename std::conditional<Counting, ArenaAllocator<T>, std::allocator<T> >::type; // stateful: one arena per container
     typedef typename TreeOf<K, Key, Dat, TCmp, Traits<L, I, B>, Alloc>::type Tree;
     typedef typename Tree::value_type value_type;
 
